@@ -35,8 +35,56 @@ def showDecision : Decision → String
   | .migrate n a => s!"decision=migrate dc={n} addr={toHexD a}"
   | .panic site => s!"panic:{site}"
 
+/-- the structured error as the request-path operations print it -/
+def showErr (e : NativeErr) : String :=
+  s!"code={e.code} msg={toHexD e.message} param={showParam e.param}"
+
+/-- `48` = hex of the symbol of the home peer "H" -/
+def homeSym : String := "48"
+
+/-- `c17.req` / `c17.two`: MakeRequest against the home peer that answers `rpc_error code msg`; the data centres of
+`over` are peers that answer pong, or — `second = some (code2, msg2)` — an error the client returns. The
+model: the decision of `onRpcError`; a migration is followed by one more request at the new address. -/
+def reqOutcome (over : DCList) (c : Int) (m : Bytes) (second : Option (Int × Bytes)) : String :=
+  let dcl := setDCList Gen.defaultDCList over
+  match onRpcError dcl c m with
+  | .ok (e, .returned) => s!"outcome=returned {showErr e} reqs={homeSym}:1"
+  | .ok (e, .dcNotFound n) => s!"outcome=notfound dc={n} {showErr e} reqs={homeSym}:1"
+  | .ok (_, .migrate _ a) =>
+    match second with
+    | none => s!"outcome=answered by={toHexD a} reqs={homeSym}:1,{toHexD a}:1"
+    | some (c2, m2) =>
+      match onRpcError dcl c2 m2 with
+      | .ok (e2, .returned) => s!"outcome=returned {showErr e2} reqs={homeSym}:1,{toHexD a}:1"
+      | .ok _ => "bad-op"
+      | .err k => s!"err:{k}"
+      | .panic site => s!"panic:{site}"
+  | .ok (_, .panic site) => s!"panic:{site}"
+  | .err k => s!"err:{k}"
+  | .panic site => s!"panic:{site}"
+
+/-- the second answer of `c17.req2` must be an error the client returns (not PHONE_MIGRATE_n) -/
+def secondReturned (c2 : Int) (m2 : Bytes) : Bool :=
+  match rpcErrorToNative c2 m2 with
+  | .ok e => match processErr [] e.message e.param with | .returned => true | _ => false
+  | _ => true
+
 /-- operations of property C17 -/
 def handle : List String → String
+  | ["c17.req", dcs, code, msg] =>
+    match parseDcs? dcs, code.toInt?, fromHex? msg with
+    | some over, some c, some m => reqOutcome over c m none
+    | _, _, _ => "bad-op"
+  | ["c17.req2", dcs, code, msg, code2, msg2] =>
+    match parseDcs? dcs, code.toInt?, fromHex? msg, code2.toInt?, fromHex? msg2 with
+    | some over, some c, some m, some c2, some m2 =>
+      if secondReturned c2 m2 then reqOutcome over c m (some (c2, m2)) else "bad-op"
+    | _, _, _, _, _ => "bad-op"
+  -- two clients in one process: the table the OTHER one was given (`_other`, at any time `_when`) does not enter
+  | ["c17.two", _when, other, dcs, code, msg] =>
+    match parseDcs? other, parseDcs? dcs, code.toInt?, fromHex? msg with
+    | some _, some over, some c, some m => reqOutcome over c m none
+    | _, _, _, _ => "bad-op"
   -- error answers through the real request path: the Go side prints "rpc ok" when every caller got its own
   -- structured error (judged on the trace by the oracle of C09–C11/C16); delivery itself is C09's model
   | ["c17.rpc", _kinds, _plan] => "rpc ok"
